@@ -4,6 +4,7 @@ import (
 	"bytes"
 	"encoding/json"
 	"fmt"
+	"math"
 	"math/rand"
 	"strconv"
 	"strings"
@@ -58,8 +59,64 @@ func splitLines(out []byte) [][]byte {
 	return lines
 }
 
+// cliEdgeFloats: whole numbers at the integer-conversion edges as JSON numbers (the JSON source
+// reads every number as a Float: 9223372036854775807 becomes 2^63) and as cells of a Float CSV
+// column, printed with -o json and -o csv.
+func cliEdgeFloats(c *core.Ctx, runner *cli.Runner) {
+	lits := []string{"9223372036854775807", "9223372036854775808", "-9223372036854775808", "-9223372036854775809", "9223372036854774784", "9223372036854777856",
+		"4611686018427387904", "9007199254740992", "9007199254740994", "-9007199254740992", "2147483648", "-2147483648", "4294967296", "18446744073709551615", "18446744073709551616",
+		"1000000000000000", "10000000000000000", "100000000000000000", "1000000000000000000", "10000000000000000000", "100000000000000000000", "1000000000000000000000",
+		"10000000000000000000000", "-10000000000000000000000", "9000000000000000000", "9300000000000000000", "123000000000", "-0", "0", "7"}
+	for _, fl := range wholeEdgeFloats() {
+		if a := math.Abs(fl); a >= 1e15 && a < 1e25 {
+			lits = append(lits, strconv.FormatFloat(fl, 'f', 0, 64))
+		}
+	}
+	big := strconv.FormatFloat(math.MaxFloat64, 'f', 0, 64)
+	lits = append(lits, big, "-"+big)
+	for _, kind := range []string{"json", "csv"} {
+		id := "cli-edge-" + kind
+		if c.Only != "" && c.Only != id {
+			continue
+		}
+		var rows []*fileh.Obj
+		var b bytes.Buffer
+		if kind == "csv" {
+			b.WriteString("id,x\n0.5,first\n") // the first cell makes the column a Float
+			o := &fileh.Obj{}
+			o.Set("id", fileh.NumOf("0.5"))
+			o.Set("x", "first")
+			rows = append(rows, o)
+		}
+		for i, l := range lits {
+			o := &fileh.Obj{}
+			o.Set("id", fileh.NumOf(l))
+			o.Set("x", "r"+strconv.Itoa(i))
+			rows = append(rows, o)
+			if kind == "csv" {
+				fmt.Fprintf(&b, "%s,r%d\n", l, i)
+			} else {
+				fmt.Fprintf(&b, "{\"id\":%s,\"x\":\"r%d\"}\n", l, i)
+			}
+		}
+		name := "t." + kind
+		files := map[string][]byte{name: b.Bytes()}
+		sql := "SELECT * FROM " + name
+		base := map[string]interface{}{"id": id, "input": name, "file": trunc(b.String(), 20000), "sql": sql, "rerun": "./check C25 <tier> --only " + id}
+		c.Count("cli/edge-floats/"+kind+"/literals", len(lits))
+		if res, ok := execOK(c, runner, cli.Run{Args: []string{sql, "-o", "json"}, Files: files}, base); ok {
+			judgeJSONLines(c, "cli/edge-floats-"+kind, res.Stdout, rows, base)
+		}
+		rp := map[string]interface{}{"id": id, "input": name, "file": base["file"], "sql": sql, "rerun": base["rerun"]}
+		if res, ok := execOK(c, runner, cli.Run{Args: []string{sql, "-o", "csv"}, Files: files}, rp); ok {
+			judgeCSVOut(c, "cli/edge-floats-"+kind, res.Stdout, []string{"id", "x"}, len(rows), func(i int, col string) (interface{}, bool) { return rows[i].Get(col) }, rp)
+		}
+	}
+}
+
 func runCLI(c *core.Ctx) {
 	runner := cli.NewRunner(c.BinDir, c.Scratch)
+	cliEdgeFloats(c, runner)
 	n := c.Pick(36, 900)
 	core.Parallel(n, 12, func(i int) {
 		id := fmt.Sprintf("cli-%d", i)
